@@ -62,7 +62,8 @@ def spec_override(c):
         # op vmrun: only the verdict of the bytecode verifier counts (proved: accepted code never panics in the VM model);
         # the execution of the same source is judged on its `eval` line, where the oracle knows the memory exclusion
         return c.spec if c.spec.startswith("eq BCV-REJECTED") else "any"
-    return "any" if c.spec == "any" and c.line.startswith("eval ") else "nopanic"
+    # `any` is what the drivers print for exactly one reason here: the oracle computed a request beyond 16 MiB
+    return "any" if c.spec == "any" and c.line.startswith(("eval ", "op ")) else "nopanic"
 
 
 DEEP = [
